@@ -117,6 +117,64 @@ func computeAliases(pkgs []*packages.Package) {
 		if len(names) == 1 && len(cands) == 1 {
 			funcAlias[cands[0]] = names[0]
 			renameText[cands[0].Name()] = names[0]
+			continue
+		}
+		// several functions of one signature renamed at once: pair them by name similarity
+		// (longest common prefix), most decisive pair first, the last one by elimination
+		if len(names) == len(cands) && len(names) > 1 && len(names) <= 4 {
+			lcp := func(a, b string) int {
+				n := 0
+				for n < len(a) && n < len(b) && a[n] == b[n] {
+					n++
+				}
+				return n
+			}
+			sort.Strings(names)
+			sort.Slice(cands, func(i, j int) bool { return cands[i].Name() < cands[j].Name() })
+			usedN, usedC := map[int]bool{}, map[int]bool{}
+			pairs := map[int]int{}
+			okAll := true
+			for round := 0; round < len(names); round++ {
+				if len(names)-round == 1 {
+					for i := range names {
+						for j := range cands {
+							if !usedN[i] && !usedC[j] {
+								pairs[i] = j
+							}
+						}
+					}
+					break
+				}
+				best, bi, bj, ties := -1, -1, -1, 0
+				for i := range names {
+					if usedN[i] {
+						continue
+					}
+					for j := range cands {
+						if usedC[j] {
+							continue
+						}
+						l := lcp(names[i], cands[j].Name())
+						if l > best {
+							best, bi, bj, ties = l, i, j, 1
+						} else if l == best {
+							ties++
+						}
+					}
+				}
+				if ties != 1 || best < 3 {
+					okAll = false
+					break
+				}
+				pairs[bi] = bj
+				usedN[bi], usedC[bj] = true, true
+			}
+			if okAll && len(pairs) == len(names) {
+				for i, j := range pairs {
+					funcAlias[cands[j]] = names[i]
+					renameText[cands[j].Name()] = names[i]
+				}
+			}
 		}
 	}
 }
